@@ -33,8 +33,9 @@ RULE = ("every public type x pickle protocols 2,3,4,5,default and copy.deepcopy:
 TRUSTED = ["hand model Model/Pickle.v (each __reduce__/_unpickle pair as constructor-on-reduced-arguments) tied by the "
            "correspondence; pickle / copy.deepcopy of builtins, datetime, hightime and ndarray are outside /repo and assumed exact",
            "the observation functions of the harness (harness/props/c13.py: *_obs) define 'observable state'"]
-ASSUMPTIONS = ["values are immutable terms in the model: independence of the copy is decided by the correspondence only"]
-PARTIAL = ["independence is a correspondence result, not a theorem", "NaN members (never equal to themselves) are not generated"]
+ASSUMPTIONS = ["independence of the copy's SAMPLE DATA is a theorem on the memory model of C12 (fresh array => isolation under every later "
+               "interleaving); independence of properties, timing and names is decided by the correspondence (mutation probes)"]
+PARTIAL = ["independence of extended properties / timing / names: correspondence only", "NaN members (never equal to themselves) are not generated"]
 
 METHODS = ["p2", "p3", "p4", "p5", "pdef", "deepcopy"]
 
